@@ -149,6 +149,10 @@ pub trait Adapter<V: Vdaf> {
     fn same_type_instance(&self, _other: &Inst) -> Option<V> {
         None
     }
+    /// the same instance under the algorithm identifier `id ^ xor` (C18 algorithm-identifier skew)
+    fn alt_algorithm(&self, _vdaf: &V, _xor: u32) -> Option<V> {
+        None
+    }
 }
 
 // ---- Byzantine client seam: a Type that encodes a raw field vector verbatim --------------------
@@ -393,6 +397,10 @@ where
         }
         let typ = C::make(other)?;
         Prio3::new(other.n, other.proofs, self.evil.algorithm_id(), typ).ok()
+    }
+    fn alt_algorithm(&self, vdaf: &Prio3<C::T, XofTurboShake128, 32>, xor: u32) -> Option<Prio3<C::T, XofTurboShake128, 32>> {
+        use prio::vdaf::Vdaf;
+        Prio3::new(self.inst.n, self.inst.proofs, vdaf.algorithm_id() ^ xor, self.cls.typ().clone()).ok()
     }
     #[allow(deprecated)]
     fn wrong_len_output(&self, bytes: &[u8], _ap: &ApSpec, other_level: bool) -> Option<prio::vdaf::OutputShare<<C::T as Flp>::Field>> {
